@@ -47,6 +47,8 @@ func checkC33(c *core.Ctx) {
 	rulePipelineBatchShape(c)
 	rulePipelineStateWriters(c)
 	ruleResetPipeline(c)
+	ruleBatcherItemErrors(c)
+	ruleStopDriverUnregisters(c)
 }
 
 func ruleAckBeforeAdvance(c *core.Ctx) {
